@@ -21,6 +21,9 @@
 //	status, body, alive := p.Get(url) / p.Post(url, body) / p.PostJSON(url, v) / p.HTTP(method, url, body)
 //	meta, data, trace := p.Writes()                             // store writes so far; trace of metadata keys ("P4:1")
 //	r, alive := p.Call("delrepo"|"deldata"|"iid"|"mutid"|"rawcount", uuid, name) // exported package functions
+//	r, alive := p.Call("receive", root, "uuid1,uuid2,...")       // datastore.VerifReceiveRepo: the repo is re-registered as a pushed repo is
+//	                                                            // (new repo / instance / version ids, the latter in the given uuid order);
+//	                                                            // its versions resolve again after the next start
 //	p.Plan("data:+2:after")                                     // die right after the 2nd data write from now on
 //	p.Quit()   clean shutdown        p.Kill()   SIGKILL        p.Dead / p.Exit / p.Stderr afterwards
 //	p.Init     the child initialised a fresh metadata store     p.Meta0   metadata writes during start-up
@@ -67,7 +70,7 @@ const Marker = "dvh-child"
 
 // Req is one line on the child's stdin.
 type Req struct {
-	Op   string `json:"op"`             // "http" | "writes" | "quit" | "sleep" | "delrepo" | "deldata" | "iid" | "mutid" | "rawcount" | "plan" | "rename"
+	Op   string `json:"op"`             // "http" | "writes" | "quit" | "sleep" | "delrepo" | "deldata" | "iid" | "mutid" | "rawcount" | "plan" | "rename" | "receive"
 	Name string `json:"name,omitempty"` // data instance name (deldata, iid, mutid); U then holds a uuid
 	M    string `json:"m,omitempty"`    // method
 	U    string `json:"u,omitempty"`    // url
@@ -207,6 +210,15 @@ func Main(args []string) {
 					say(errResp(datastore.DeleteDataByName(dvid.UUID(rq.U), dvid.InstanceName(rq.Name), "")))
 				case "rename": // RPC "repo <uuid> rename <old> <new>": U uuid, Name old, M new
 					say(errResp(datastore.RenameData(dvid.UUID(rq.U), dvid.InstanceName(rq.Name), dvid.InstanceName(rq.M), "")))
+				case "receive": // the repo with root U goes through the receiving end of a push (verif hook of /repo);
+					// Name = comma-separated uuids: the order in which the new local version ids are handed out ("" = the code's own)
+					var order []dvid.UUID
+					for _, u := range strings.Split(rq.Name, ",") {
+						if u != "" {
+							order = append(order, dvid.UUID(u))
+						}
+					}
+					say(errResp(datastore.VerifReceiveRepo(dvid.UUID(rq.U), "", order)))
 				case "iid":
 					d, err := datastore.GetDataByUUIDName(dvid.UUID(rq.U), dvid.InstanceName(rq.Name))
 					if err != nil {
